@@ -765,10 +765,12 @@ def main():
         ncp = emit_copy(outdir)
         from translate_report import emit_report  # noqa
         nrp = emit_report(outdir)
+        from translate_shape import emit_shape  # noqa
+        nsh = emit_shape(outdir)
     except TranslateError as e:
         print(str(e))
         sys.exit(2)
-    print(f"translate: {nr} parser rules, {nc} instruction classes, {nl} leaf functions, {nk} key/index classification functions, {ns} wrapper functions, {na} condition-combination functions, {ng} global-graph/neighbourhood functions, {nsr} path-search functions, {nsv} worklist-solver functions, {nct} constraint-initialisation functions, {nrx} regex-engine functions, {ngr} group-verdict functions, {nrn} orchestration functions, {ncf} CFG-construction functions, {nst} operand-reconstruction functions, {nfn} function-construction functions, {nln} line-parser functions, {njt} joint-pass function, {ncs} constant-resolution functions, {ndt} detector functions, {nout} exporter functions, {nvr} version/mode/cost functions, {ncp} main-CFG-copy functions, {nrp} report functions -> {outdir}")
+    print(f"translate: {nr} parser rules, {nc} instruction classes, {nl} leaf functions, {nk} key/index classification functions, {ns} wrapper functions, {na} condition-combination functions, {ng} global-graph/neighbourhood functions, {nsr} path-search functions, {nsv} worklist-solver functions, {nct} constraint-initialisation functions, {nrx} regex-engine functions, {ngr} group-verdict functions, {nrn} orchestration functions, {ncf} CFG-construction functions, {nst} operand-reconstruction functions, {nfn} function-construction functions, {nln} line-parser functions, {njt} joint-pass function, {ncs} constant-resolution functions, {ndt} detector functions, {nout} exporter functions, {nvr} version/mode/cost functions, {ncp} main-CFG-copy functions, {nrp} report functions, {nsh} argument-parser functions and rule lambdas -> {outdir}")
 
 
 if __name__ == "__main__":
